@@ -130,6 +130,9 @@ def errOK (s : Str) (line : String) : List Viol :=
       | none =>
         if msg == "unexpected EOF".toList then
           (if pos == (s.length : Int) then [] else ["eof-position-not-at-end"])
+        -- an unterminated here-document is an unexpected end of input as well
+        else if "here-document at line ".toList.isPrefixOf msg then
+          (if pos == (s.length : Int) then [] else ["eof-position-not-at-end+heredoc"])
         else [])
 
 /-- relational verdicts: `rel <prop>:<params> <src> <outcome>...` → list of signatures -/
